@@ -202,6 +202,22 @@ def bm1(F, R):
                 zero_guard, _ = guarded(fn, b, lambda g: g.kind == "bool" and g.term[0] == "arg" and g.term[1] == 4 and g.truth is True)
                 R.require(ok_idx and fresh, fn, "alloc:index", "blank_mut index %s is not a block of the freshly found cluster" % tstr(idx), fn.loc(b))
                 R.require(zero_guard, fn, "alloc:zero-flag", "blank_mut not under the `zero` flag", fn.loc(b))
+                # the whole cluster is wiped: the loop around blank_mut ends only when its block range is exhausted (or a cache
+                # call fails), and every trip blanks - no early `break` under a condition of its own
+                Ls = sorted([l for l in fn.loops() if b in l[1]], key=lambda l: len(l[1]))
+                okw = bool(Ls)
+                if Ls:
+                    h_, body_, backs_ = Ls[0]
+                    for (gb, gi, g) in all_guards(fn):
+                        if gb not in body_ or fn.succ(gb)[gi][0] in body_ or fn.term(fn.succ(gb)[gi][0])["k"] == "Unreachable":
+                            continue
+                        exhausted = g.kind == "variant" and g.variant == "None" and has_sub(g.term, lambda q: q[0] == "call" and q[1] and q[1].endswith("Iterator::next"))
+                        failed = g.kind == "variant" and g.variant in ("Break", "Err")
+                        if not (exhausted or failed):
+                            okw = False
+                    skip_ = fn.reach([h_], cut_blocks=[b] + [x for x in fn.live_blocks() if x not in body_])
+                    okw = okw and not any(bs in skip_ for bs in backs_ if bs != h_ or True) if backs_ else okw
+                R.require(okw, fn, "alloc:wipes-whole-cluster", "the loop that blanks the new directory cluster can end early / go round without blanking (a condition of its own besides the exhausted block range): part of the cluster keeps stale directory entries", fn.loc(b))
             elif fn.npath == FATVOL + "::make_dir":
                 ctb = [s for s in _all_subterms_through_vars(fn, idx) if s[0] == "call" and s[1] and path_matches(s[1], "FatVolume::cluster_to_block")]
                 ok = bool(ctb) and all(last_field(strip_refs(c[2][1])) == "cluster" or "cluster" in tstr(c[2][1]) for c in ctb)
@@ -1268,6 +1284,27 @@ def is2(F, R):
                 viewed.append(tstr(ix)[:60])
     stores = [fn.loc(b, i) for b, i, s in fn.stmts() if s["k"] == "Assign" and s["p"]["proj"] and any(e[0] == "index" or e[0] == "constindex" for e in s["p"]["proj"])]
     R.require(sorted(map(str, viewed)) == sorted(map(str, want.values())) and not stores, fn, "only-the-two-fields", "update_info_sector touches more of the FSInfo sector than FSI_Free_Count [488..492) and FSI_Nxt_Free [492..496): views %s, direct stores %s (bytes 496..512 hold the reserved area and the trail signature)" % (viewed, stores), fn.loc(0))
+    # on FAT32 the record is rewritten whenever something is known: an Ok return that has not passed write_back lies behind
+    # "free count unknown" and "hint unknown" - no cached "nothing changed" shortcut, which goes stale with the first code path
+    # that forgets to invalidate it
+    fv = fat_views(fn)["Fat32"]
+    wbs = [b for b, t in fv.calls() if call_matches(t, ("BlockCache::write_back", "BlockCache::write_back_with_duplicate"))]
+    dry = fv.reach([0], cut_blocks=wbs)
+    def unknown(field):
+        def pred(g):
+            t_ = strip_refs(g.term)
+            if g.kind == "bool" and g.truth is True and t_[0] == "call" and t_[1] and t_[1].endswith("::is_none") and last_field(strip_refs(t_[2][0])) == field:
+                return True
+            if g.kind == "bool" and g.truth is False and t_[0] == "call" and t_[1] and t_[1].endswith("::is_some") and last_field(strip_refs(t_[2][0])) == field:
+                return True
+            return g.kind == "variant" and g.variant == "None" and t_[0] == "place" and last_field(t_) == field
+        return pred
+    from .ev import implying_edges
+    for (b, i, v) in ok_returns(fv):
+        if b not in dry:
+            continue
+        okq = all(fv.unreachable_without(b, list(implying_edges(fv, unknown(fld)))) for fld in ("free_clusters_count", "next_free_cluster"))
+        R.require(okq, fn, "written-unless-unknown", "on FAT32 update_info_sector can return Ok without writing the record although a free count / hint is known (a shortcut of its own decides that nothing changed)", fn.loc(b, i))
     rms = [(b, t) for b, t in fn.calls() if call_matches(t, ("BlockCache::read_mut",))]
     okloc = False
     if len(rms) == 1:
